@@ -6,4 +6,9 @@ mkdir -p work evidence replays
 export CARGO_NET_OFFLINE=true
 export CARGO_TARGET_DIR="$(pwd)/work/target"
 (cd harness && cargo build --offline --release -p tfv)
-echo "setup done"
+
+# ThreadSanitizer build of the C24 probe (needs -Zbuild-std; slow when cold, incremental afterwards)
+(cd harness && cargo build --offline --release -p c24probe && \
+  RUSTFLAGS="-Zsanitizer=thread" CARGO_TARGET_DIR="$(pwd)/../work/target-tsan" \
+  cargo +nightly build -Zbuild-std --target x86_64-unknown-linux-gnu --offline --profile tsan -p c24probe) || echo "setup: TSan build failed (C24 will report inconclusive)"
+echo "setup complete"
